@@ -13,6 +13,11 @@ def pytest_configure(config):
     import skactiveml.pool.multiannotator  # noqa
     n = contracts.install_pool_query_contracts()
     print("verif: query contracts installed on %d classes" % n)
+    # function contracts of C16 / C17 / C18 (label predicates, aggregation, selection primitives)
+    import skactiveml.classifier, skactiveml.regressor, skactiveml.stream, skactiveml.utils  # noqa
+    from vf.props import c16, c17, c18
+    for m in (c16, c17, c18):
+        m.setup()
 
 
 def pytest_sessionfinish(session, exitstatus):
@@ -27,3 +32,12 @@ def pytest_sessionfinish(session, exitstatus):
     print("\nverif: %d monitored query calls, contract evaluations %s" % (len(recs), dict(contracts.EVALS)))
     for k, v in sorted(c.items()):
         print("verif-fired %5d %s  e.g. %s" % (v, k, str(ex[k])[:160]))
+    from vf.monitors import fcontracts as fc
+    c2 = collections.Counter()
+    ex2 = {}
+    for v in fc.drain():
+        c2[(v["component"], v["kind"])] += 1
+        ex2.setdefault((v["component"], v["kind"]), v["detail"])
+    print("verif: function-contract evaluations %s" % dict(fc.EVALS))
+    for k, v in sorted(c2.items()):
+        print("verif-fired-fn %5d %s  e.g. %s" % (v, k, str(ex2[k])[:300]))
